@@ -291,6 +291,11 @@ class RuleTemplateFactory(RuleFactory):
                     rule.build_only,
                     new_endpoint,
                     rule.strict_slashes,
+                    rule.merge_slashes,
+                    rule.redirect_to,
+                    rule.alias,
+                    rule.host,
+                    rule.websocket,
                 )
 
 
